@@ -29,7 +29,7 @@ impl Float {
     /// overflow or rounded.
     pub fn from_i64(sem: Semantics, val: i64) -> Self {
         if val < 0 {
-            let mut a = Self::from_u64(sem, -val as u64);
+            let mut a = Self::from_u64(sem, val.unsigned_abs());
             a.set_sign(true);
             return a;
         }
